@@ -13,6 +13,7 @@ import Driver.Stable2
 import Driver.Factory
 import Driver.Incentive
 import Driver.Pair
+import Driver.VaultChain
 namespace Driver
 
 /-- the state of whichever engine the last `init <engine> …` line selected
@@ -31,6 +32,7 @@ inductive EngineState where
   | registry (s : FacState)
   | incentive (d : Driver.Incentive.DSt)
   | pair (cv : WW.Pair.Curve) (s : WW.Pair.St)
+  | vaultchain (c : WW.VaultChain.Cfg) (s : WW.VaultChain.St)
 
 /-- `init <engine> k=v …` : select the engine and build its initial state; prints the first observation -/
 def initLine (ws : List String) : EngineState × String :=
@@ -86,6 +88,10 @@ def initLine (ws : List String) : EngineState × String :=
     | none, _ => (.none, "bad-op")
     | _, none => (.none, "bad-op")
     | _, _ => (.none, "err")
+  | "vaultchain" :: args =>
+    match VaultChainDrv.initSt args with
+    | some (c, s) => (.vaultchain c s, "ok " ++ VaultChainDrv.showObs c s)
+    | none => (.none, "bad-op")
   | _ => (.none, "bad-op")
 
 /-- an operation line for the currently selected engine -/
@@ -104,6 +110,7 @@ def opLine (st : EngineState) (ws : List String) : EngineState × String :=
   | .registry s => let (s', o) := facOp s ws; (.registry s', o)
   | .incentive d => let (d', o) := Driver.Incentive.opLine d ws; (.incentive d', o)
   | .pair cv s => let (s', o) := Driver.PairD.opLine cv s ws; (.pair cv s', o)
+  | .vaultchain c s => let (s', o) := VaultChainDrv.stepLine c s ws; (.vaultchain c s', o)
 
 def stepLine (st : EngineState) (line : String) : EngineState × Option String :=
   match words line with
